@@ -452,6 +452,23 @@ def analyse_copy(ctx: Any, prog: Program, modname: str, clsname: str, meth: str,
                     on_value = any(isinstance(x, ast.Attribute) and dotted(x.value) == 'self' and x.attr == f for x in ast.walk(ie.test)) and not presence
                     if switch or presence:
                         continue
+                    # the destination map is no switch: "within one map and across maps" the copy exports like the original.  A condition
+                    # (directly, through a local, or as one conjunct) on the parameter naming the destination drops the field across maps
+                    dest_params_ = {x.id for s_, _h in flows.get('map', []) for x in ast.walk(s_) if isinstance(x, ast.Name) and x.id in params_ and x.id not in ('self', 'cls')} | ({'vmf_file'} & params_)
+                    seen_t, work_t, on_dest = set(), [ie.test], False
+                    while work_t:
+                        c_ = work_t.pop()
+                        for x in ast.walk(c_):
+                            if isinstance(x, ast.Name) and x.id in dest_params_:
+                                on_dest = True
+                            elif isinstance(x, ast.Name) and x.id not in seen_t and x.id not in params_:
+                                seen_t.add(x.id)
+                                work_t.extend(ca.local_defs.get(x.id, []))
+                    if on_dest and not on_value:
+                        ctx.check('C09.P1', False, mod, ie, f'{qual} carries `{f}` over only when `{U(ie.test)[:60]}` is {"false" if arms_read[1] else "true"}, a condition on the destination map '
+                                  f'({", ".join(sorted(dest_params_))}): copied into another map the copy gets `{U(ie.orelse if arms_read[0] else ie.body)[:30]}` and its export differs from the original',
+                                  func=qual, text=f'{clsname}.{f} carried over unconditionally')
+                        continue
                     ctx.shape('C09.P1', on_value, mod, ie, f'{qual}: the condition `{U(ie.test)[:50]}` under which `{f}` is carried over is neither a caller switch, a presence test nor a test on the field itself', func=qual,
                               text=f'{clsname}.{f} carried over unconditionally')
                     if on_value:
@@ -894,6 +911,7 @@ def run(ctx: Any, prog: Program) -> None:
 
 
 MUTANTS = [
+    {'id': 'solid_copy_group_only_same_map', 'file': 'vmf.py', 'find': "            self.hidden if keep_vis else False,\n            self.group_id,", 'replace': "            self.hidden if keep_vis else False,\n            self.group_id if vmf_file is None or vmf_file is self.map else None,", 'expect': 'C09.P1', 'note': 'round 11: carry-over conditional on the destination map'},
     {'id': 'kv_add_concatenates_own_children', 'file': 'keyvalues.py', 'find': "            copy = self.copy()\n            assert isinstance(copy._value, list)\n", 'replace': "            copy = Keyvalues.__new__(Keyvalues)\n            copy._real_name = self._real_name\n            copy._folded_name = self._folded_name\n            copy.line_num = self.line_num\n            copy._value = self._value + []\n", 'expect': 'C09.P4'},
     {'id': 'solid_copy_hands_sides_defaulted_map', 'file': 'vmf.py', 'find': "        sides = [\n            s.copy(-1, vmf_file, side_mapping)", 'replace': "        target = self.map if vmf_file is None else vmf_file\n        sides = [\n            s.copy(-1, target, side_mapping)", 'expect': 'C09.P7'},
     {'id': 'ok_solid_copy_alias_of_parameter', 'file': 'vmf.py', 'find': "        sides = [\n            s.copy(-1, vmf_file, side_mapping)", 'replace': "        target = vmf_file\n        sides = [\n            s.copy(-1, target, side_mapping)", 'expect': None, 'note': 'negative control: plain alias of the parameter'},
